@@ -309,6 +309,7 @@ type c05Ex struct {
 	heldOnce sync.Once
 	release  chan struct{} // closed by U<k> (or teardown)
 	relOnce  sync.Once
+	emitMark int // event loop only: len(emitLog) when the exchange was started
 	// written by the exchange goroutine before close(done)
 	out string
 	// guarded by c05Pipe.mu
@@ -343,6 +344,7 @@ type c05Pipe struct {
 	// event loop only
 	totalWritten int64
 	closedKnown  bool
+	emitLog      []uint16 // header ids of every message the server emitted, in order
 }
 
 func (st *c05Pipe) dial(ctx context.Context) (net.Conn, error) {
@@ -523,6 +525,7 @@ func (st *c05Pipe) emit(msg []byte, id uint16) string {
 	if cw == nil || st.closedKnown {
 		return ""
 	}
+	st.emitLog = append(st.emitLog, id)
 	st.write(msg)
 	if !cw.barrier(st.totalWritten) {
 		return "HARNESS-ERROR barrier timeout"
@@ -589,6 +592,7 @@ func (st *c05Pipe) start(cid uint16, flags string) string {
 	}()
 	tm := time.NewTimer(5 * time.Second)
 	defer tm.Stop()
+	e.emitMark = len(st.emitLog)
 	select {
 	case <-e.seen:
 	case <-e.done:
@@ -654,6 +658,20 @@ func (st *c05Pipe) releaseHeld(k int) string {
 	case <-e.done:
 	case <-tm.C:
 		return fmt.Sprintf("HARNESS-ERROR released exchange %d neither seen nor done", k)
+	}
+	// A message carrying this exchange's wire id that arrived while it sat inside Write is in its channel: after a
+	// successful Write the exchange returns it at once.  Wait for that (else a following close would race with the
+	// reply arm: two ready select arms).
+	st.mu.Lock()
+	wid := e.wid
+	st.mu.Unlock()
+	if wid >= 0 && !e.isDone() {
+		for _, id := range st.emitLog[e.emitMark:] {
+			if int(id) == wid {
+				c05WaitChan(e.done, 5*time.Second)
+				break
+			}
+		}
 	}
 	return st.afterWrite(e)
 }
